@@ -56,6 +56,10 @@ def _matches(entry, prop, ev, clause):
         return False
     if "labels_any" in m and not any(x in labels for x in m["labels_any"]):
         return False
+    # label_after: {"name": "value"} - the label following the marker `name` must equal `value`
+    for name, val in m.get("label_after", {}).items():
+        if name not in labels or labels.index(name) + 1 >= len(labels) or labels[labels.index(name) + 1] != val:
+            return False
     for path, val in m.get("where", {}).items():
         got = _get(ev, path)
         if isinstance(val, list):
